@@ -241,7 +241,7 @@ prop( 'C09', [ 'R-LOCK-1', 'R-LOCK-6', 'R-LOCK-2', 'R-LOCK-3', 'R-LOCK-4', 'R-LO
       technique='lock-set style who-holds-what rules over call sites (AST + dominance); field-to-lock tables',
       thorough_rules=[] )
 
-prop( 'C13', [ 'S-COMPLETE', 'P-MATCH', 'P-FRESH', 'P-BUNDLE', 'P-DISCARD', 'P-ACT', 'N-RECV', 'P-GATEWAY', 'P-ROUTE', 'T-CONTEXT', 'P-POLL', 'K-TIMEOUT', 'K-REPLIES', 'W-CLASSSTATE' ],
+prop( 'C13', [ 'S-COMPLETE', 'P-MATCH', 'P-FRESH', 'P-BUNDLE', 'P-DISCARD', 'P-ACT', 'N-RECV', 'P-GATEWAY', 'P-ROUTE', 'T-CONTEXT', 'P-POLL', 'K-TIMEOUT', 'K-REPLIES', 'W-CLASSSTATE', 'P-PARAMS' ],
       decides='P-GATEWAY also: proxy.close_gateway stores gateway = None on every path from close(), including those on which close() raises (a connected gateway raises on a dead connection).  P-MATCH also: every index_to_sender_context derives the context from the request index (client.implicit\'s constant context is known finding AA).  P-ACT also: client.__next__ never enters its framing engine on the branch where the non-blocking receive returned nothing.  S-COMPLETE (sibling cross-check): every harvesting driver operate() can return (synchronous, pipeline) compares, after its '
               'harvest loop, a counter fed by the issue stream with a counter fed by the harvested results and raises on a mismatch - so '
               'the client can never silently return fewer results than operations; P-MATCH: in harvest every yield is dominated by an assert '
@@ -268,7 +268,7 @@ prop( 'C15', [ 'B-ROUTE', 'D-REFUSE', 'C-MAIN', 'S-STATUS', 'T-SEGMENTS', 'P-BUN
       not_decided='textual route-path parsing (string -> segments) over all strings.',
       technique='exhaustive evaluation of a boolean AST over a finite abstract domain (decision-table check); dominance on the CFG' )
 
-prop( 'C01', [ 'T-TYPES', 'L-AGREE', 'L-DEFAULT', 'L-CODEC', 'T-SEGMENTS', 'T-NCP', 'K-NCPSTATE', 'A-OFFSETS', 'G-FRAME', 'L-SPEC', 'X-SERVICES', 'G-PRIMS', 'G-INIT', 'K-STALEMEMO', 'K-FOWIDTH', 'L-FRESH', 'L-PADSIZE', 'L-TEXTCODEC', 'T-TYPEDLOOP', 'L-SOCKADDR', 'L-PRODUCIBLE', 'L-STRLEN', 'L-UNITS', 'L-STATUSDATA', 'K-DIRECTION', 'T-BOOL', 'P-ORDER' ],
+prop( 'C01', [ 'T-TYPES', 'L-AGREE', 'L-DEFAULT', 'L-CODEC', 'T-SEGMENTS', 'T-NCP', 'K-NCPSTATE', 'A-OFFSETS', 'G-FRAME', 'L-SPEC', 'X-SERVICES', 'G-PRIMS', 'G-INIT', 'K-STALEMEMO', 'K-FOWIDTH', 'L-FRESH', 'L-PADSIZE', 'L-TEXTCODEC', 'T-TYPEDLOOP', 'L-SOCKADDR', 'L-PRODUCIBLE', 'L-STRLEN', 'L-UNITS', 'L-STATUSDATA', 'K-DIRECTION', 'T-BOOL', 'P-ORDER', 'L-CPFEMPTY' ],
       decides='T-TYPEDLOOP: every element loop of typed_data is closed on its own type.  L-TEXTCODEC: per codec class the character set of .encode() in the producer equals decode= of its parser.  L-FRESH: inside every loop of a produce() a local assigned in the loop is assigned on every path of the iteration before it is read (accumulators excepted) - no element of a repetition is emitted with the value computed for the element before it.  L-PADSIZE: a size field counted in words of a padded payload is computed from the payload AFTER the pad has been appended (every path from the pad to the emission of the size passes the size computation, never the reverse).  layout-agreement clauses.  T-TYPES: every CIP scalar class has the spec\'s (type code, width, signedness, little-endian byte order), '
               'TYPE.produce packs and state_struct unpacks with the class format, TYPES_SUPPORTED and the 14-row typed_data dispatch are '
               'consistent; L-AGREE: for each of the 24 registered service machines, every layout variant the producer branch can emit '
